@@ -57,8 +57,34 @@ JID = Kind("JID", _phone.map(lambda p: p + "@s.whatsapp.net"))
 GJID = Kind("GJID", st.builds(lambda p, t: "%s-%d@g.us" % (p, t), _phone, st.integers(1300000000, 1700000000)))
 AJID = Kind("AJID", st.one_of(JID.strategy, GJID.strategy))
 TEXT = Kind("TEXT", _text)
-BLOB = Kind("BLOB", st.binary(min_size=0, max_size=48), is_bytes=True)
-BLOB1 = Kind("BLOB1", st.binary(min_size=1, max_size=48), is_bytes=True)
+def pattern_bytes(n, pat):
+    from .stanzas import pattern_bytes as _pb
+    return _pb(n, pat)
+
+
+# binary fields (pictures, thumbnails, ciphertexts) are mostly short, sometimes of a size at or beyond a length-class boundary
+# of the wire format (8 / 20 / 31 bit length prefixes; a 20-bit length needs its top nibble from 64 KiB on)
+_LARGE_SIZES = [255, 256, 257, 4095, 4096, 65535, 65536, 65537, 70000, 200000]
+_large_blob = st.builds(pattern_bytes, st.sampled_from(_LARGE_SIZES), st.integers(0, 4))
+
+
+def _blob(min_size):
+    small = st.binary(min_size=min_size, max_size=48)
+    return st.one_of(small, small, small, small, small, small, small, small, small, _large_blob)
+
+
+BLOB = Kind("BLOB", _blob(0), is_bytes=True)
+BLOB1 = Kind("BLOB1", _blob(1), is_bytes=True)
+
+
+def _compact_bytes(b):
+    """large generated blobs are stored as (length, pattern) so that cases and replay files stay small"""
+    b = bytes(b)
+    if len(b) > 200:
+        for pat in range(5):
+            if pattern_bytes(len(b), pat) == b:
+                return {"len": len(b), "pat": pat}
+    return None
 TEXTDATA = Kind("TEXTDATA", st.text(min_size=1, max_size=24).map(lambda s: s.encode("utf-8")), is_bytes=True)
 BOOL = Kind("BOOL", st.booleans())
 NONE = Kind("NONE", st.none())
@@ -119,7 +145,31 @@ class N(object):
         assert not (self.children and self.data is not None), "a node has data or children, not both"
 
 
-def shape_strategy(shape):
+def _strat(kind, large):
+    return _large_blob if (large and kind.name in ("BLOB", "BLOB1")) else kind.strategy
+
+
+def _is_blob(k):
+    k = k.kind if isinstance(k, OPT) else k
+    return isinstance(k, Kind) and k.name in ("BLOB", "BLOB1")
+
+
+def shape_has_blob(shape):
+    if shape.data is not None and _is_blob(shape.data):
+        return True
+    for slot in shape.children:
+        subs = slot.shapes if isinstance(slot, ALT) else [slot.shape if isinstance(slot, CH) else slot]
+        if any(shape_has_blob(x) for x in subs):
+            return True
+    return False
+
+
+def args_have_blob(args, kwargs):
+    return any(_is_blob(k) for k in list(args) + list((kwargs or {}).values()))
+
+
+def shape_strategy(shape, large=False):
+    """large: binary node content is present and of a size at or beyond a length-class boundary"""
     @st.composite
     def build(draw):
         attrs = {}
@@ -133,23 +183,23 @@ def shape_strategy(shape):
         if shape.data is not None:
             d = shape.data
             if isinstance(d, OPT):
-                if draw(st.booleans()):
-                    content = draw(d.kind.strategy)
+                if (large and _is_blob(d)) or draw(st.booleans()):
+                    content = draw(_strat(d.kind, large))
             else:
-                content = draw(d.strategy)
+                content = draw(_strat(d, large))
             if isinstance(content, str):
                 content = content.encode("latin-1")
         elif shape.children:
             kids = []
             for slot in shape.children:
                 if isinstance(slot, ALT):
-                    kids.append(draw(shape_strategy(draw(st.sampled_from(list(slot.shapes))))))
+                    kids.append(draw(shape_strategy(draw(st.sampled_from(list(slot.shapes))), large)))
                     continue
                 if isinstance(slot, N):
                     slot = CH(slot)
-                n = draw(st.integers(slot.lo, slot.hi))
+                n = draw(st.integers(max(slot.lo, 1) if (large and slot.hi >= 1 and shape_has_blob(slot.shape)) else slot.lo, slot.hi))
                 for _ in range(n):
-                    kids.append(draw(shape_strategy(slot.shape)))
+                    kids.append(draw(shape_strategy(slot.shape, large)))
             content = kids if kids else None
         tag = shape.tag if isinstance(shape.tag, str) else draw(shape.tag.strategy)
         return (tag, attrs, content)
@@ -163,13 +213,14 @@ def tree_to_json(t):
     elif content is None:
         c = None
     else:
-        c = {"hex": bytes(content).hex()}
+        c = _compact_bytes(content) or {"hex": bytes(content).hex()}
     return {"t": tag, "a": [[k, v] for k, v in attrs.items()], "c": c}
 
 
 def json_val(v):
     if isinstance(v, (bytes, bytearray)):
-        return {"b": bytes(v).hex()}
+        c = _compact_bytes(v)
+        return {"blen": c["len"], "bpat": c["pat"]} if c else {"b": bytes(v).hex()}
     if isinstance(v, (list, tuple)):
         return [json_val(x) for x in v]
     if isinstance(v, dict):
@@ -180,6 +231,8 @@ def json_val(v):
 def unjson_val(v):
     if isinstance(v, dict) and "b" in v and len(v) == 1:
         return bytes.fromhex(v["b"])
+    if isinstance(v, dict) and "blen" in v and len(v) == 2:
+        return pattern_bytes(v["blen"], v["bpat"])
     if isinstance(v, dict) and "d" in v and len(v) == 1:
         return {unjson_val(k): unjson_val(x) for k, x in v["d"]}
     if isinstance(v, list):
@@ -187,21 +240,21 @@ def unjson_val(v):
     return v
 
 
-def args_strategy(args, kwargs):
+def args_strategy(args, kwargs, large=False):
     @st.composite
     def build(draw):
         a = []
         for k in args:
             if isinstance(k, OPT):
-                a.append(draw(k.kind.strategy) if draw(st.booleans()) else None)
+                a.append(draw(_strat(k.kind, large)) if ((large and _is_blob(k)) or draw(st.booleans())) else None)
             else:
-                a.append(draw(k.strategy))
+                a.append(draw(_strat(k, large)))
         kw = {}
         for name, k in (kwargs or {}).items():
             if isinstance(k, OPT):
-                if draw(st.booleans()):
-                    kw[name] = draw(k.kind.strategy)
+                if (large and _is_blob(k)) or draw(st.booleans()):
+                    kw[name] = draw(_strat(k.kind, large))
             else:
-                kw[name] = draw(k.strategy)
+                kw[name] = draw(_strat(k, large))
         return [json_val(x) for x in a], {n: json_val(v) for n, v in kw.items()}
     return build()
